@@ -9,6 +9,9 @@ import r_counters
 import r_init
 import r_unsafe
 import r_width
+import r_conv
+import r_window
+import r_mirror
 
 
 def _sets(quick, thorough=None):
@@ -34,10 +37,7 @@ NOT_APPLICABLE = {
     'C15': 'Affine equivariance, range preservation, superposition and impulse responses relate numeric outputs of several runs; the '
            'only structural ingredient (kind<->method wiring) is claimed as S06 under C05/C18.',
     # claimed in DESIGN.md, check not built yet in this commit (moved to `checks` as each is armed):
-    'C01': 'check under construction (DESIGN.md §5 C01): not yet armed in this commit',
-    'C04': 'check under construction (DESIGN.md §5 C04): not yet armed in this commit',
     'C12': 'check under construction (DESIGN.md §5 C12): not yet armed in this commit',
-    'C17': 'check under construction (DESIGN.md §5 C17): not yet armed in this commit',
 }
 
 PROPS = {
@@ -122,15 +122,15 @@ PROPS = {
         level_text=('Structural half of the round-trip property for all 127 state types; format assumption stated.'),
     ),
     'C14': dict(
-        rules=[r_counters.s08_monotone_counters],
+        rules=[r_counters.s08_monotone_counters, lambda ctx: r_mirror.s04_mirror_siblings(ctx, which=('cross::CrossAbove', 'reversal::Upper'))],
         feature_sets=_sets(['default']),
-        explanation=('Decides the clause "streams much longer than PeriodType::MAX" for the detectors: no position field of the crossing / '
+        explanation=('(S04) CrossUnder and LowerReversalSignal are, function by function, the HIR mirror image of CrossAbove and UpperReversalSignal under the swap >=/<=, >/< on float operands, max/min and the declared names ("exactly in the mirrored case"). Decides the clause "streams much longer than PeriodType::MAX" for the detectors: no position field of the crossing / '
                      'reversal detectors (nor of any other method) is a capacity-limited monotone counter (S08).'),
         not_decided=['that the max-side definitions themselves (strict/non-strict pair, pivot window, tie rule) are the documented ones',
-                     'mirror agreement CrossAbove/CrossUnder and Upper/LowerReversalSignal (rule S04) when armed'],
+                     'a consistent change of both mirror sides is not seen by S04'],
         assumptions=TRUST,
-        technique='static analysis: MIR def-use classification of integer state writes (monotone counter rule)',
-        level_text='Necessary condition of the any-stream-length clause; exact over the detectors\' integer fields.',
+        technique='static analysis: HIR mirror-tree isomorphism + MIR def-use classification of integer state writes',
+        level_text='Mirror clause and any-stream-length clause decided structurally; the max-side definitions themselves are not.',
     ),
     'C16': dict(
         rules=[r_action.s22_eq_vs_ord],
@@ -207,5 +207,50 @@ PROPS = {
         technique='static analysis: cross-build MIR isomorphism diff and enumeration of width-sensitive operations',
         level_text=('The builds are shown to be one program up to the integer type; the finite list of width-sensitive operations is '
                     'enumerated and each is classified. Numeric equalities for long windows / f32 are not claimed.'),
+    ),
+    'C01': dict(
+        rules=[r_window.s01_iterator_discipline, lambda ctx: r_serde.s02_manual_serde_tables(ctx, only=('Window',))],
+        feature_sets=_sets(['default']),
+        explanation=('(S01) for WindowIterator and ReversedWindowIterator: size_hint is (r, Some(r)) of one field r; on every path of next() '
+                     'a yielded item decrements r exactly once by 1 and is preceded by the test r != 0, None is returned exactly under r == 0 '
+                     'without touching r; every other Option-returning override (last) looks at r before yielding; count returns r. '
+                     'Hence the number of items still to come equals size_hint at every split point and an exhausted or empty iterator '
+                     'never yields. (S02) Window\'s hand-written Serialize/Deserialize agree on the field table (buf, index).'),
+        not_decided=['that push / slice_index / newest / the iterator cursor arithmetic select the right slot for every rotation phase '
+                     '(modular arithmetic on runtime values; needs a solver or model checker): not decided',
+                     'agreement of the three constructors on derived fields and rejection of malformed serialized windows: rules S03 / A01 when armed'],
+        assumptions=TRUST,
+        technique='static analysis: per-path remaining-count discipline on MIR (typestate-like), writer/reader table agreement',
+        level_text='Iterator exhaustion/count clauses and serde table agreement decided exactly; slot arithmetic explicitly not.',
+    ),
+    'C04': dict(
+        rules=[lambda ctx: r_mirror.s04_mirror_siblings(ctx, which=('highest_lowest::Highest', 'highest_lowest_index::HighestIndex')),
+               r_mirror.s05_mixed_float_equivalence],
+        feature_sets=_sets(['default']),
+        explanation=('(S04) Lowest / LowestIndex are the HIR mirror image of Highest / HighestIndex (new, next, peek) under the swap >=/<=, '
+                     '>/< on float operands and max/min: the min-side behaviour is the mirrored max-side behaviour, ties included. (S05) every '
+                     'to_bits() equality site is enumerated; a function that compares the same pair of floats by bits and by numeric order '
+                     'while steering a search (recursion / fn pointer / loop) is reported: the relations disagree on signed zeros.'),
+        not_decided=['that the max-side algorithms (cached extremum + rescan trigger, age counter, sorted-slice shifting) compute the maximum, '
+                     'its age and the median for every order pattern: behaviour over all streams, not decided',
+                     'the two halves of HighestLowestDelta::next are not compared'],
+        assumptions=TRUST,
+        technique='static analysis: HIR mirror-tree isomorphism, MIR def-use rule for mixed float equivalences',
+        level_text='Mirror and signed-zero clauses only; exactness of the selection algorithms is not claimed.',
+    ),
+    'C17': dict(
+        rules=[r_conv.s19a_collapse_discipline, r_conv.s19b_same_name_wiring],
+        feature_sets=_sets(['default']),
+        explanation=('(S19a) on every path of CollapseTimeframe::next the position is incremented exactly once; Some(..) is returned exactly on '
+                     'the path where it equals period, which resets it to 0 and returns the taken accumulator; other paths return None and keep '
+                     'the accumulator; accumulation is accumulator + candle (in that order); new rejects period 0. (S19b) Candle + T takes open '
+                     'from the left operand only, close from the right only, high/low through max/min of both, volume through +; every OHLCV '
+                     'accessor, Candle::from, HLC::from and the tuple conversions wire each component to the same-named / same-position '
+                     'component; the batch collapse folds with the same Add.'),
+        not_decided=['Heikin-Ashi recursion and output validity, Renko brick contiguity/sizing/volume conservation: numeric, not decided',
+                     'Renko never panics (brick-boundary case): rule A01 when armed'],
+        assumptions=TRUST,
+        technique='static analysis: per-path emission discipline on MIR, same-name wiring of struct literals',
+        level_text='Emission discipline and aggregation wiring decided exactly; numeric converter behaviour not claimed.',
     ),
 }
